@@ -120,7 +120,18 @@ def check_sequence(case: dict):
     """several queries answered by ONE maze object, in the drawn order (state kept between calls would show here)"""
     g = case["g"]
     _, a, comp_of, cyc = _model(g["r"], g["c"], g["cl"])
-    m = L.lattice(g)
+    stored = case.get("stored")
+
+    def build():
+        # the solver is inherited by targeted and solved mazes; what such a maze stores (endpoints, a solution that may go the long
+        # way round) must not change the answers
+        if stored and case.get("holder") == "solved":
+            return L.solved(g, stored)
+        if stored and case.get("holder") == "targeted":
+            return L.targeted(g, stored[0], stored[-1])
+        return L.lattice(g)
+
+    m = build()
     nt = False
     n_conn = 0
     for k, q in enumerate(case["queries"]):
@@ -147,8 +158,8 @@ def check_sequence(case: dict):
             # a caller may do what it likes with the array it got; later answers must not depend on it
             res += 7
         if case.get("rebuild") and k % 2 == 1:
-            m = L.lattice(g)  # an equal maze built separately must answer the same way
-    return {"nt": nt and n_conn >= 2, "labels": ["sequence"] + (["scribble"] if case.get("scribble") else [])}
+            m = build()  # an equal maze built separately must answer the same way
+    return {"nt": nt and n_conn >= 2, "labels": ["sequence", "holder:" + (case.get("holder") or "lattice")] + (["scribble"] if case.get("scribble") else [])}
 
 
 def check_generated(case: dict):
@@ -218,7 +229,97 @@ def _sequences(draw, hi):
         else:
             e = draw(G.cell_in(r, c))
         qs.append([s, e])
-    return {"g": g, "queries": qs, "scribble": draw(st.booleans()), "rebuild": draw(st.booleans())}
+    case = {"g": g, "queries": qs, "scribble": draw(st.booleans()), "rebuild": draw(st.booleans())}
+    holder = draw(st.sampled_from(["lattice", "targeted", "solved", "solved"]))
+    if holder != "lattice":
+        # a self-avoiding walk (not necessarily shortest) stored in the maze; its endpoints are queried in both directions
+        p = [tuple(draw(G.cell_in(r, c)))]
+        for _ in range(draw(st.sampled_from([1, 2, 3, 5, 8, 13, 21]))):
+            nxt = [v for v in sorted(a[p[-1]]) if v not in p]
+            if not nxt:
+                break
+            p.append(draw(st.sampled_from(nxt)))
+        case["holder"], case["stored"] = holder, [list(q) for q in p]
+        pos = draw(st.integers(0, len(qs)))
+        case["queries"] = qs[:pos] + [[list(p[0]), list(p[-1])], [list(p[-1]), list(p[0])]] + qs[pos:]
+    return case
+
+
+def _route_cells(n, kind):
+    """a corridor between opposite corners of an n x n grid: along the border (two ways) or a staircase along the diagonal"""
+    if kind == "border-a":
+        return [(0, j) for j in range(n)] + [(i, n - 1) for i in range(1, n)]
+    if kind == "border-b":
+        return [(i, 0) for i in range(n)] + [(n - 1, j) for j in range(1, n)]
+    p = [(0, 0)]
+    while p[-1] != (n - 1, n - 1):
+        i, j = p[-1]
+        p.append((i, j + 1) if (i == j and j + 1 < n) or i + 1 >= n else (i + 1, j))
+    return p
+
+
+def check_routes(case: dict):
+    """large mazes made of a few long corridors between far-apart cells whose lengths differ by a few steps (plus drawn shortcuts);
+    the optimum is known to the BFS model, and where the best route lies - along the border, along the diagonal - is part of the case"""
+    n = case["n"]
+    bits = [0] * (2 * n * n)
+    for route in case["routes"]:
+        cells = [tuple(q) for q in route]
+        for u, v in zip(cells[:-1], cells[1:]):
+            bits[M.edge_bit(n, n, min(u, v), max(u, v))] = 1
+    g = M.g_make(n, n, bits)
+    a = M.adj(g)
+    m = L.lattice(g)
+    for s, e in case["queries"]:
+        s, e = tuple(s), tuple(e)
+        dist = M.bfs(a, s)
+        if e not in dist:
+            continue
+        res = call("C02:routes", m.find_shortest_path, s, e)
+        path = L.as_cells(np.asarray(res))
+        prob = M.path_problems(g, a, path, start=s, end=e, need_shortest=False, need_simple=False)
+        require(prob is None, "C02:routes:unsound", f"{n}x{n} {s}->{e}: {prob}")
+        require(len(path) - 1 == dist[e], "C02:routes:not-shortest", f"{n}x{n} maze of {len(case['routes'])} corridors, {s}->{e}: returned {len(path) - 1} steps, minimum is {dist[e]}")
+    return {"nt": True, "labels": [f"n>={n // 20 * 20}", f"routes:{len(case['routes'])}"]}
+
+
+@st.composite
+def _routes(draw, sizes):
+    n = draw(st.sampled_from(sizes))
+    corner_a, corner_b = (0, 0), (n - 1, n - 1)
+    routes = []
+    kinds = draw(st.lists(st.sampled_from(["border-a", "border-b", "stairs", "stairs-long", "meander"]), min_size=2, max_size=4, unique=True))
+    for kind in kinds:
+        if kind in ("border-a", "border-b"):
+            routes.append(_route_cells(n, kind))
+        elif kind == "stairs":
+            routes.append(_route_cells(n, "stairs"))
+        elif kind == "stairs-long":
+            # the staircase with k bulges of two extra steps each
+            p = _route_cells(n, "stairs")
+            k = draw(st.integers(1, 3))
+            out, used = [], 0
+            idx = 0
+            while idx < len(p):
+                out.append(p[idx])
+                i, j = p[idx]
+                if used < k and i == j and 3 <= i < n - 4 and (i % max(4, n // (k + 1)) == 0):
+                    # (i,i) -> (i,i+3) -> (i+1,i+3) -> (i+1,i+2) -> (i+2,i+2): six steps where the staircase needs four
+                    out += [(i, j + 1), (i, j + 2), (i, j + 3), (i + 1, j + 3), (i + 1, j + 2), (i + 2, j + 2)]
+                    idx = p.index((i + 2, j + 2))
+                    used += 1
+                idx += 1
+            routes.append(out)
+        else:
+            # a Z-shaped route through the middle column
+            mid = n // 2
+            routes.append([(0, j) for j in range(mid + 1)] + [(i, mid) for i in range(1, n)] + [(n - 1, j) for j in range(mid + 1, n)])
+    qs = [[list(corner_a), list(corner_b)], [list(corner_b), list(corner_a)]]
+    for _ in range(draw(st.integers(0, 3))):
+        r1 = draw(st.sampled_from(routes))
+        r2 = draw(st.sampled_from(routes))
+        qs.append([list(draw(st.sampled_from(r1))), list(draw(st.sampled_from(r2)))])
+    return {"n": n, "routes": [[list(q) for q in r] for r in routes], "queries": qs}
 
 
 def _exhaustive_medium(shard: int, nshards: int):
@@ -268,5 +369,6 @@ def subs(tier: str):
             examples=150 if quick else 2500,
         ),
         Sub(name="query-sequences", check=check_sequence, kind="hypothesis", strategy=lambda: _sequences(10 if quick else 20), examples=60 if quick else 1000),
+        Sub(name="competing-routes-at-scale", check=check_routes, kind="hypothesis", strategy=lambda: _routes([61, 47, 80, 100] if quick else [61, 47, 80, 100, 127, 150]), examples=3 if quick else 30),
         Sub(name="generated-mazes-with-metadata", check=check_generated, kind="hypothesis", strategy=lambda: _generated(7 if quick else 10), examples=40 if quick else 600),
     ]
